@@ -77,6 +77,12 @@ class G:
             # GOAWAY discards it; C02/C21: a later data_to_send returns all of it, in order)
             s = dict(s, nf=True)
         held = self.held.get(s['x'], False)
+        if s['a'] == 'call' and s['c'].get('op') in ('hdr', 'push') and 'big' in str(s['c'].get('h')):
+            # a header list whose block needs several frames: the specification has to be told the length of the block, which
+            # is observed on the output of the call -- so the call's output is taken, and is the call's alone
+            s = {k: v for k, v in s.items() if k != 'nf'}
+            if held:
+                s = dict(s, c=dict(s['c'], h='req_get' if s['c']['h'].startswith('req') else 'resp200'))
         self.held[s['x']] = bool(s.get('nf'))
         if s['a'] == 'call' and s['c'].get('op') in ('hdr', 'push') and not s.get('nf') and not held:
             # observe the sizes of the frames that carry the header block (when the step's output is this step's alone)
